@@ -499,3 +499,237 @@ Proof.
   intros i Hi. destruct (E3 i ltac:(rewrite L1; exact Hi)) as (o & Ho & HQ). exists o. split; [exact Ho|].
   cbv zeta in HQ. rewrite !win_firstn in HQ by exact Hi. exact HQ.
 Qed.
+
+(* ================================================================================================ *)
+(* (C) "null below min_periods" at EVERY carrier — no order law, no premise on the data                    *)
+(* ================================================================================================ *)
+(* the window of the clamped driver window is the window of the requested one *)
+Lemma seg_is_win {T} (w k : nat) (xs : list T) :
+  1 <= w -> k < length xs ->
+  seg (k - (cmp_window w xs - 1)) (S k) xs = win w k xs.
+Proof. intros Hw Hk. rewrite win_seg. unfold wstart, cmp_window. f_equal. lia. Qed.
+Lemma seg_is_win_unclamped {T} (W w k : nat) (xs : list T) :
+  1 <= w -> k < length xs -> (W = w \/ W = Nat.min w (length xs)) ->
+  seg (k - (W - 1)) (S k) xs = win w k xs.
+Proof. intros Hw Hk HW. rewrite win_seg. unfold wstart. f_equal. lia. Qed.
+
+Section ExtBelow.
+  Context {A : Type} {NA : Num A} {T : Type} {DT : IsNone T A}.
+  Variable scmp : option A -> option A -> comparison.
+  Variable xs : list T.
+  Variable W : nat.
+
+  Lemma vext_step_out mp k v s : nth_error xs k = Some v -> x_n s = cnt_at (@not_none T A DT) xs W k ->
+    exists s' o, vext_cb scmp mp xs s (start_of W k, k, v) = Ok (s', o) /\
+                 x_n s' = cnt_at (@not_none T A DT) xs W (S k) /\
+                 (cntp (@not_none T A DT) (seg (k - (W - 1)) (S k) xs) < mp -> o = None).
+  Proof.
+    intros Hv Hn. destruct (ext_step_ok scmp xs s (start_of W k) k v (start_of_le W k) Hv) as (s1 & E1 & N1).
+    unfold vext_cb. rewrite E1. cbn [bind].
+    assert (N1' : x_n s1 = cntp (@not_none T A DT) (seg (k - (W - 1)) (S k) xs)).
+    { rewrite N1, Hn. symmetry. apply cnt_add. exact Hv. }
+    destruct (ext_post_ok xs W s1 k v Hv N1') as (s2 & E2 & N2).
+    rewrite E2. cbn [bind]. eexists _, _. split; [reflexivity|]. split; [exact N2|].
+    intros Hlt. rewrite N1', (proj2 (Nat.leb_gt _ _) Hlt). reflexivity.
+  Qed.
+
+  Hypothesis Hrefl : scmp_refl_on scmp xs.
+  Lemma varg_step_out mp k v s : nth_error xs k = Some v -> x_n s = cnt_at (@not_none T A DT) xs W k ->
+    exists s' o, varg_cb scmp mp xs s (start_of W k, k, v) = Ok (s', o) /\
+                 x_n s' = cnt_at (@not_none T A DT) xs W (S k) /\
+                 (cntp (@not_none T A DT) (seg (k - (W - 1)) (S k) xs) < mp -> o = None).
+  Proof.
+    intros Hv Hn. destruct (varg_step scmp xs W Hrefl mp k v s Hv Hn) as (s' & o & E & N).
+    exists s', o. split; [exact E|]. split; [exact N|]. intros Hlt.
+    destruct (ext_step_ok scmp xs s (start_of W k) k v (start_of_le W k) Hv) as (s1 & E1 & N1).
+    assert (N1' : x_n s1 = cntp (@not_none T A DT) (seg (k - (W - 1)) (S k) xs)).
+    { rewrite N1, Hn. symmetry. apply cnt_add. exact Hv. }
+    unfold varg_cb in E. rewrite E1 in E. cbn [bind] in E.
+    rewrite N1', (proj2 (Nat.leb_gt _ _) Hlt) in E. cbn [andb bind] in E.
+    destruct (ext_post xs s1 (start_of W k)) as [s2|pk]; cbn [bind] in E; [|discriminate].
+    injection E as _ <-. reflexivity.
+  Qed.
+End ExtBelow.
+
+Section ExtBelowEntry.
+  Context {A : Type} {NA : Num A} {T : Type} {DT : IsNone T A}.
+  Variable scmp : option A -> option A -> comparison.
+
+  Definition nvalid_win (w i : nat) (xs : list T) : nat := cntp (@not_none T A DT) (win w i xs).
+
+  Theorem ts_vext_below_null body (w : nat) mp (xs : list T) : 1 <= w ->
+    exists out, ts_vext scmp body w mp xs = Done out /\ length out = length xs /\
+      forall i, i < length xs -> nvalid_win w i xs < cmp_mp mp (cmp_window w xs) -> nth_error out i = Some None.
+  Proof.
+    intros Hw. destruct xs as [|x0 xs'] eqn:Ex.
+    { exists []. split; [unfold ts_vext; apply idx_run_empty|]. split; [reflexivity|]. intros i Hi. cbn in Hi. lia. }
+    rewrite <- Ex. assert (Hl : 1 <= length xs) by (rewrite Ex; cbn; lia). clear Ex x0 xs'.
+    unfold ts_vext. cbv zeta. set (W := cmp_window w xs). assert (HW : 1 <= W) by (unfold W, cmp_window; lia).
+    destruct (idx_run_spec (vext_cb scmp (cmp_mp mp W) xs) xs body W
+                (fun k s => x_n s = cnt_at (@not_none T A DT) xs W k)
+                (fun k o => k < length xs -> nvalid_win w k xs < cmp_mp mp W -> o = None) ext0 HW)
+      as (outs & E & L & Hout).
+    - rewrite cnt_at_0. reflexivity.
+    - intros k v s Hv HP. unfold W. rewrite cmp_window_eff. fold W.
+      destruct (vext_step_out scmp xs W (cmp_mp mp W) k v s Hv HP) as (s' & o & E & N & Hb).
+      exists s', o. split; [exact E|]. split; [exact N|]. intros Hk Hlt. apply Hb.
+      unfold W. rewrite seg_is_win by assumption. exact Hlt.
+    - exists outs. split; [exact E|]. split; [exact L|]. intros i Hi Hlt.
+      destruct (nth_error outs i) as [o|] eqn:Eo; [|apply nth_error_None in Eo; lia].
+      rewrite (Hout i o Eo Hi Hlt). reflexivity.
+  Qed.
+
+  Theorem ts_varg_below_null body (w : nat) mp (xs : list T) : 1 <= w -> scmp_refl_on scmp xs ->
+    exists out, ts_varg scmp body w mp xs = Done out /\ length out = length xs /\
+      forall i, i < length xs -> nvalid_win w i xs < cmp_mp mp (cmp_window w xs) -> nth_error out i = Some None.
+  Proof.
+    intros Hw Hr. destruct xs as [|x0 xs'] eqn:Ex.
+    { exists []. split; [unfold ts_varg; apply idx_run_empty|]. split; [reflexivity|]. intros i Hi. cbn in Hi. lia. }
+    rewrite <- Ex in *. assert (Hl : 1 <= length xs) by (rewrite Ex; cbn; lia). clear Ex x0 xs'.
+    unfold ts_varg. cbv zeta. set (W := cmp_window w xs). assert (HW : 1 <= W) by (unfold W, cmp_window; lia).
+    destruct (idx_run_spec (varg_cb scmp (cmp_mp mp W) xs) xs body W
+                (fun k s => x_n s = cnt_at (@not_none T A DT) xs W k)
+                (fun k o => k < length xs -> nvalid_win w k xs < cmp_mp mp W -> o = None) ext0 HW)
+      as (outs & E & L & Hout).
+    - rewrite cnt_at_0. reflexivity.
+    - intros k v s Hv HP. unfold W. rewrite cmp_window_eff. fold W.
+      destruct (varg_step_out scmp xs W Hr (cmp_mp mp W) k v s Hv HP) as (s' & o & E & N & Hb).
+      exists s', o. split; [exact E|]. split; [exact N|]. intros Hk Hlt. apply Hb.
+      unfold W. rewrite seg_is_win by assumption. exact Hlt.
+    - exists outs. split; [exact E|]. split; [exact L|]. intros i Hi Hlt.
+      destruct (nth_error outs i) as [o|] eqn:Eo; [|apply nth_error_None in Eo; lia].
+      rewrite (Hout i o Eo Hi Hlt). reflexivity.
+  Qed.
+End ExtBelowEntry.
+
+(* ts_vminmaxnorm: below the effective min_periods the carrier's NaN, whatever the sentinels and the order *)
+Section NormBelow.
+  Context {A : Type} {NA : Num A} {T : Type} {DT : IsNone T A}.
+  Variables tmin tmax : A.
+
+  Lemma mm_head_below mp (s1 : @mm A) e v : mm_n s1 + b2n (not_none v) < mp -> snd (mm_head mp s1 e v) = nnan.
+  Proof.
+    intros H. unfold mm_head. destruct (not_none v); [|reflexivity]. cbn [b2n] in H.
+    assert (Hg : (mp <=? S (mm_n s1)) = false) by (apply Nat.leb_gt; lia).
+    destruct (nleb (mm_max s1) (unwrap v)), (nleb (unwrap v) (mm_min s1)); cbn [snd]; rewrite Hg; reflexivity.
+  Qed.
+
+  Theorem ts_vminmaxnorm_below_null body (w : nat) mp (xs : list T) : 1 <= w ->
+    exists out, ts_vminmaxnorm tmin tmax body w mp xs = Done out /\ length out = length xs /\
+      forall i, i < length xs -> nvalid_win (DT := DT) w i xs < mp_eff mp w 0 -> nth_error out i = Some nnan.
+  Proof.
+    intros Hw. unfold ts_vminmaxnorm. set (W := eff_window body w (length xs)).
+    destruct (idx_run_spec (mmnorm_cb tmin tmax (mp_eff mp w 0) xs) xs body w
+                (fun k s => mm_n s = cnt_at (@not_none T A DT) xs W k)
+                (fun k o => k < length xs -> nvalid_win (DT := DT) w k xs < mp_eff mp w 0 -> o = nnan) (mm0 tmin tmax) Hw)
+      as (outs & E & L & Hout).
+    - rewrite cnt_at_0. reflexivity.
+    - intros k v s Hv HP. fold W.
+      assert (Hk : k < length xs) by (apply nth_error_Some; congruence).
+      destruct (mmnorm_step tmin tmax xs W (mp_eff mp w 0) k v s Hv HP) as (s' & o & Ecb & HP').
+      exists s', o. split; [exact Ecb|]. split; [exact HP'|]. intros _ Hlt.
+      rewrite mmnorm_cb_unfold in Ecb.
+      destruct (mm_research_ok tmin tmax xs s (start_of W k) k (start_of_le W k) ltac:(lia)) as (s1 & R & N0).
+      rewrite R in Ecb. cbn [bind] in Ecb. cbv zeta in Ecb.
+      match type of Ecb with (do s3 <- ?X; _) = _ => destruct X as [s3|pk]; cbn [bind] in Ecb; [|discriminate] end.
+      injection Ecb as _ <-. apply mm_head_below.
+      rewrite N0, HP, <- (cnt_add (@not_none T A DT) xs W k v Hv).
+      rewrite (seg_is_win_unclamped W w k xs Hw Hk); [exact Hlt|]. unfold W. destruct body; cbn [eff_window]; auto.
+    - exists outs. split; [exact E|]. split; [exact L|]. intros i Hi Hlt.
+      destruct (nth_error outs i) as [o|] eqn:Eo; [|apply nth_error_None in Eo; lia].
+      rewrite (Hout i o Eo Hi Hlt). reflexivity.
+  Qed.
+End NormBelow.
+
+(* ts_vfdiff: below the effective min_periods the carrier's NaN, for every order d (a null order included) *)
+Section FdiffBelow.
+  Context {A : Type} {NA : Num A} {T : Type} {DT : IsNone T A}.
+
+  Lemma custom_unit_run {O} (g : list T -> O) (l : list (list T)) :
+    run (fun (u : unit) (a : list T) => (u, g a)) tt l = map g l.
+  Proof. induction l as [|a l IH]; [reflexivity|]. cbn [run map]. f_equal. exact IH. Qed.
+
+  Theorem ts_vfdiff_below_null body (d : A) (w : nat) mp (xs : list T) : 1 <= w ->
+    exists out, ts_vfdiff body d w mp xs = Done out /\ length out = length xs /\
+      forall i, i < length xs -> nvalid_win (DT := DT) w i xs < mp_eff mp w 0 -> nth_error out i = Some nnan.
+  Proof.
+    intros Hw.
+    assert (E : ts_vfdiff body d w mp xs
+                = Done (map (fun arr => snd (ts_vfdiff_cb d w (mp_eff mp w 0) tt arr)) (windows w xs))).
+    { unfold ts_vfdiff. cbv zeta.
+      destruct body; [rewrite rolling_custom_to_eq by exact Hw|rewrite rolling_custom_default_eq by exact Hw];
+        f_equal; apply (custom_unit_run (fun arr => snd (ts_vfdiff_cb d w (mp_eff mp w 0) tt arr))). }
+    eexists. split; [exact E|]. split; [unfold windows; rewrite !map_length, seq_length; reflexivity|].
+    intros i Hi Hlt. unfold windows. rewrite map_map, nth_error_map, nth_error_seq.
+    replace (i <? length xs) with true by (symmetry; apply Nat.ltb_lt; exact Hi). cbn [option_map Nat.add].
+    f_equal. unfold ts_vfdiff_cb. cbn [snd]. unfold nvalid_win, cntp in Hlt.
+    pose proof (Audit01.mp_eff_le_window mp w 0 ltac:(lia)) as Hle.
+    replace (length (filter not_none (win w i xs)) =? w) with false by (symmetry; apply Nat.eqb_neq; lia).
+    rewrite (proj2 (Nat.leb_gt _ _) Hlt). reflexivity.
+  Qed.
+End FdiffBelow.
+
+(* ================================================================================================ *)
+(* (D) min_periods above the window: the clamp `.min(window)` makes it the window; all other entry points     *)
+(* ================================================================================================ *)
+Section AboveWindow.
+  Context {A : Type} {NA : Num A} {T : Type} {DT : IsNone T A} {T2 : Type} {D2 : IsNone T2 A}.
+
+  Theorem min_periods_above_window_rest (w m : nat) : w <= m ->
+    ts_vzscore_f (DT := DT) w (Some m) = ts_vzscore_f w (Some w) /\
+    ts_vreg_f (DT := DT) w (Some m) = ts_vreg_f w (Some w) /\
+    ts_vtsf_f (DT := DT) w (Some m) = ts_vtsf_f w (Some w) /\
+    ts_vreg_slope_f (DT := DT) w (Some m) = ts_vreg_slope_f w (Some w) /\
+    ts_vreg_intercept_f (DT := DT) w (Some m) = ts_vreg_intercept_f w (Some w) /\
+    ts_vreg_resid_mean_f (DT := DT) w (Some m) = ts_vreg_resid_mean_f w (Some w) /\
+    ts_vcov_f (D1 := DT) (D2 := D2) w (Some m) = ts_vcov_f w (Some w) /\
+    ts_vcorr_f (D1 := DT) (D2 := D2) w (Some m) = ts_vcorr_f w (Some w) /\
+    ts_vregx_alpha_f (D1 := DT) (D2 := D2) w (Some m) = ts_vregx_alpha_f w (Some w) /\
+    ts_vregx_beta_f (D1 := DT) (D2 := D2) w (Some m) = ts_vregx_beta_f w (Some w) /\
+    ts_vregx_all_f (D1 := DT) (D2 := D2) w (Some m) = ts_vregx_all_f w (Some w) /\
+    (forall tmin tmax body xs, ts_vminmaxnorm (DT := DT) tmin tmax body w (Some m) xs
+                               = ts_vminmaxnorm tmin tmax body w (Some w) xs) /\
+    (forall k body xs ys, ts_vregx_resid (D1 := DT) (D2 := D2) k body w (Some m) xs ys
+                          = ts_vregx_resid k body w (Some w) xs ys) /\
+    (forall body d xs, ts_vfdiff (DT := DT) body d w (Some m) xs = ts_vfdiff body d w (Some w) xs).
+  Proof.
+    intros H.
+    assert (E : forall k, mp_eff (Some m) w k = mp_eff (Some w) w k) by (intros k; unfold mp_eff; lia).
+    unfold ts_vzscore_f, ts_vreg_f, ts_vtsf_f, ts_vreg_slope_f, ts_vreg_intercept_f, ts_vreg_resid_mean_f,
+      ts_vcov_f, ts_vcorr_f, ts_vregx_alpha_f, ts_vregx_beta_f, ts_vregx_all_f, ts_vminmaxnorm, ts_vregx_resid,
+      ts_vfdiff.
+    rewrite !E. repeat split; reflexivity.
+  Qed.
+End AboveWindow.
+
+(* ================================================================================================ *)
+(* (E) every input of every entry point: the shape of the outcome                                            *)
+(* ================================================================================================ *)
+Lemma ts_run_safe {T St O} (F : feat T St O) body (w : nat) (xs : list T) : kernel_safe w xs (ts_run F body w xs).
+Proof.
+  rewrite Audit01.ts_run_total. destruct (bad_window_cases w xs) as [(Hb & Hw & Hx)|(Hb & Hc)]; rewrite Hb.
+  - right. split; [exact Hw|]. split; [exact Hx|reflexivity].
+  - left. eexists. split; [reflexivity|]. rewrite run_length. apply mapi_length.
+Qed.
+
+(* the iterator body of the two-series entry points never compares the lengths: with a shorter second series it
+   returns FEWER outputs than the first series has elements *)
+Lemma shorter_second_iterator_truncates {T1 T2 St O} (F : feat (T1 * T2) St O) (w : nat) (xs : list T1) (ys : list T2) :
+  1 <= w -> length ys < length xs ->
+  exists out, ts_run2 F false w xs ys = Done out /\ length out = length ys /\ length out < length xs.
+Proof.
+  intros Hw Hl. pose proof (ts_run2_by_check F false w xs ys) as H. unfold check2, check2_default in H.
+  rewrite bad_window_false in H by exact Hw. destruct H as (l & E & Hn). unfold common in Hn.
+  exists l. split; [exact E|]. lia.
+Qed.
+
+(* witnesses: the huge-window equivalence needs an EXPLICIT min_periods (omitted means floor(w/2), which grows with
+   the window), and does not hold for the exponentially weighted mean (its weights are powers of 1 - 2/w) *)
+Lemma huge_window_omitted_differs :
+  ts_run (ts_vsum_f (A := Z) (DT := IsNone_option) 3 None) true 3 [Some 1%Z; Some 2%Z]
+  <> ts_run (ts_vsum_f (A := Z) (DT := IsNone_option) 9 None) true 9 [Some 1%Z; Some 2%Z].
+Proof. vm_compute. discriminate. Qed.
+Lemma huge_window_ewm_differs :
+  ts_run (ts_vewm_f (A := Z) (DT := IsNone_option) 2 (Some 1)) true 2 [Some 5%Z]
+  <> ts_run (ts_vewm_f (A := Z) (DT := IsNone_option) 3 (Some 1)) true 3 [Some 5%Z].
+Proof. vm_compute. discriminate. Qed.
